@@ -910,24 +910,27 @@ impl TypedExpr {
                             continue;
                         }
                         if n < bits {
-                            let mut expr = y.clone();
+                            // the other operand is compiled (and thus evaluated) exactly once
+                            let term = y.compile(prg, env, circuit);
+                            let mut sum = term.clone();
                             for _ in 0..n - 1 {
-                                expr = Box::new(Expr {
-                                    inner: ExprEnum::Op(Op::Add, expr, y.clone()),
-                                    meta,
-                                    ty: ty.clone(),
-                                });
+                                let (s, carry, carry_prev) =
+                                    circuit.push_addition_circuit(&sum, &term);
+                                let overflow = if is_signed(ty) {
+                                    circuit.push_xor(carry, carry_prev)
+                                } else {
+                                    carry
+                                };
+                                circuit.push_panic_if(overflow, PanicReason::Overflow, meta);
+                                sum = s;
                             }
                             if is_neg {
-                                return Expr {
-                                    inner: ExprEnum::UnaryOp(UnaryOp::Neg, expr),
-                                    meta,
-                                    ty: ty.clone(),
-                                }
-                                .compile(prg, env, circuit);
-                            } else {
-                                return expr.compile(prg, env, circuit);
+                                let negated = circuit.push_negation_circuit(&sum);
+                                let overflow = circuit.push_and(sum[0], negated[0]);
+                                circuit.push_panic_if(overflow, PanicReason::Overflow, meta);
+                                sum = negated;
                             }
+                            return sum;
                         }
                     }
                 }
